@@ -126,7 +126,7 @@ PROPS["C04"] = dict(
 )
 
 LIT = ["parser/c05_parser.go", "parser/c15_literals.go"]
-FWD = ["astnorm/c15_vars.go"]
+FWD = ["astnorm/c15_vars.go", "common/zz_json.go"]
 
 def c15(entry, n, what, covers, timeout=1800):
     return spec("H-C15a-%s[%d]" % (what, n), "./pkg/astparser", LIT, entry, [n], "every valid GraphQL %s literal with %d body bytes (validity per the October 2021 grammar, assumed in the harness); real lexer+parser, ValueToJSON; oracle: RFC 8259 automaton + independent decoders" % (what, n), covers, timeout=timeout)
@@ -160,6 +160,25 @@ PROPS["C08"] = dict(
     stubs=[],
     quick=[c08(4, 0, 0), c08(4, 1, 0), c08(3, 0, 1), c08(3, 1, 1)],
     thorough=[c08(5, 0, 0), c08(5, 1, 0), c08(4, 1, 1, 3000)],
+)
+
+C02H = ["resolve/c02_render.go", "common/zz_json.go"]
+C02T = ["scalars + nested object + list of strings", "abstract object (1 or 2 possible types, type-conditioned fields) + enum + custom scalar", "list of objects + float", "list of abstract objects"]
+
+def c02(t, dev, timeout=1800):
+    return spec("H-C02[%d,%d]" % (t, dev), "./pkg/engine/resolve", C02H, "VerifC02Render", [t, dev],
+                "template plan %d (%s), every nullability assignment (symbolic), data = canonical conforming document with <=%d deviations (absent, null, every wrong JSON kind, typename A/B/unknown/missing, enum letter symbolic, list length 0/1/2)" % (t, C02T[t], dev),
+                ["reference has errors", "reference clean"] if dev > 0 else ["reference clean"], timeout=timeout)
+
+PROPS["C02"] = dict(
+    title="Rendered response is well-formed and type-safe whatever subgraphs return",
+    level_text="bounded symbolic execution of Resolvable.Init+Resolve (two-pass walk, null bubbling, type/typename/enum checks, error rendering) from go/ssa against a reference CompleteValue-with-null-bubbling written independently in the harness; every nullability assignment and every data document within the deviation budget lies on a solver-decided path",
+    level_note="bounds: 4 template plans, deviation budget; for ill-typed values the oracle accepts nulling any nullable ancestor up to data:null (as the property allows), for null values exactly the nearest; extensions/tracing/Apollo modes off; trusted base: gosym, z3, harness oracle; astjson interpreted as plain Go",
+    design_ref="DESIGN.md §4 C02",
+    assumptions=["root data is a JSON object (the loader always merges into an object)", "go-arena Alloc returns nil (nil-arena behaviour)"],
+    stubs=["fmt.Sprintf executed natively on concrete arguments"],
+    quick=[c02(0, 2), c02(1, 2), c02(2, 2), c02(3, 2)],
+    thorough=[c02(0, 3), c02(1, 3), c02(2, 3), c02(3, 3)],
 )
 
 NOT_APPLICABLE = {
